@@ -7,6 +7,7 @@ never be used.
 -/
 import ZstdVerif.Model.MT
 import ZstdVerif.Model.Window
+import ZstdVerif.Model.WindowUpdate
 namespace ZstdVerif.Props.C07
 open ZstdVerif ZstdVerif.MT
 
@@ -60,5 +61,82 @@ theorem reset_unreachable_stale (w : Window.Win) (nextSrcIdx idx : Nat) (h : idx
     idx < (windowClear nextSrcIdx w).lowLimit ∧ idx < (windowClear nextSrcIdx w).dictLimit := ⟨h, h⟩
 
 example : feed 100 ⟨[], 30⟩ 250 = ⟨[100, 100], 80⟩ := by decide
+
+/-! ### (3) where the caller's buffer lies does not matter (ZSTD_window_update) -/
+
+open ZstdVerif.WindowUpdate in
+theorem cutDict_dictLimit (w : WinP) (ip : Int) (n : Nat) : (cutDict w ip n).dictLimit = w.dictLimit := by
+  unfold cutDict; split <;> rfl
+
+open ZstdVerif.WindowUpdate in
+/-- a segment that shares no byte with the external dictionary leaves it alone - in particular one that ends exactly where
+the dictionary starts or starts exactly where it ends (half-open intervals) -/
+theorem cutDict_disjoint (w : WinP) (ip : Int) (n : Nat)
+    (h : ip + n ≤ w.dictBase + w.lowLimit ∨ w.dictBase + w.dictLimit ≤ ip) : cutDict w ip n = w := by
+  unfold cutDict
+  rw [if_neg]
+  omega
+
+open ZstdVerif.WindowUpdate in
+theorem cutDict_emptyDict (w : WinP) (ip : Int) (n : Nat) (h : w.lowLimit = w.dictLimit) :
+    (cutDict w ip n).lowLimit = w.lowLimit := by
+  unfold cutDict
+  split
+  · rename_i hc
+    have : ip + ↑n - w.dictBase > ↑w.dictLimit := by omega
+    simp only [this, if_true, h]
+  · rfl
+
+/-- the segment [ip, ip+n) shares no byte with the current prefix [base+dictLimit, nextSrc) -/
+def SegDisjoint (w : WindowUpdate.WinP) (ip : Int) (n : Nat) : Prop := ip + n ≤ w.base + w.dictLimit ∨ w.nextSrc ≤ ip
+
+open ZstdVerif.WindowUpdate in
+/-- a segment that starts a new run (not contiguous, or contiguity switched off) and does not overwrite the previous run gets
+limits that are a function of the window alone: the WHOLE previous run becomes the dictionary (or none of it when it is
+shorter than HASH_READ_SIZE), wherever the segment lies -/
+theorem update_newRun_limits (w : WinP) (ip : Int) (n : Nat) (force : Bool) (hn : n ≠ 0) (hw : w.base + w.dictLimit ≤ w.nextSrc)
+    (hsplit : ip ≠ w.nextSrc ∨ force = true) (hd : SegDisjoint w ip n) :
+    (update w ip n force).1.lowLimit = (newSegment w 0).lowLimit ∧ (update w ip n force).1.dictLimit = (newSegment w 0).dictLimit
+      ∧ (update w ip n force).2 = false := by
+  have hs : (decide (ip ≠ w.nextSrc) || force) = true := by
+    rcases hsplit with h | h
+    · simp [h]
+    · simp [h]
+  unfold update
+  simp only [hn, if_false, hs, if_true, Bool.not_true]
+  refine ⟨?_, ?_, trivial⟩
+  · by_cases hsz : (w.nextSrc - w.base).toNat - w.dictLimit < HASH_READ_SIZE
+    · rw [cutDict_emptyDict]
+      · simp only [newSegment, hsz, if_true]
+      · simp only [newSegment, hsz, if_true]
+    · rw [cutDict_disjoint]
+      · simp only [newSegment, hsz, if_false]
+      · unfold SegDisjoint at hd
+        simp only [newSegment, hsz, if_false]
+        omega
+  · rw [cutDict_dictLimit]
+    simp only [newSegment]
+
+open ZstdVerif.WindowUpdate in
+/-- **placement independence**: two placements of the same new run, neither overwriting the previous run, give the same
+limits and the same `contiguous` answer -/
+theorem update_placement_independent (w : WinP) (ip ip' : Int) (n : Nat) (force : Bool) (hn : n ≠ 0)
+    (hw : w.base + w.dictLimit ≤ w.nextSrc) (h1 : ip ≠ w.nextSrc ∨ force = true) (h2 : ip' ≠ w.nextSrc ∨ force = true)
+    (hd : SegDisjoint w ip n) (hd' : SegDisjoint w ip' n) :
+    (update w ip n force).1.lowLimit = (update w ip' n force).1.lowLimit
+      ∧ (update w ip n force).1.dictLimit = (update w ip' n force).1.dictLimit
+      ∧ (update w ip n force).2 = (update w ip' n force).2 := by
+  have a := update_newRun_limits w ip n force hn hw h1 hd
+  have b := update_newRun_limits w ip' n force hn hw h2 hd'
+  exact ⟨a.1.trans b.1.symm, a.2.1.trans b.2.1.symm, a.2.2.trans b.2.2.symm⟩
+
+open ZstdVerif.WindowUpdate in
+/-- in particular the placement ZSTD_c_deterministicRefPrefix exists for: the input directly behind the prefix, contiguity
+switched off - the prefix stays the dictionary exactly as if the input were anywhere else -/
+theorem forced_adjacent_keeps_dictionary (w : WinP) (n : Nat) (hn : n ≠ 0) (hw : w.base + w.dictLimit ≤ w.nextSrc) :
+    (update w w.nextSrc n true).1.lowLimit = (newSegment w 0).lowLimit
+      ∧ (update w w.nextSrc n true).1.dictLimit = (newSegment w 0).dictLimit := by
+  have a := update_newRun_limits w w.nextSrc n true hn hw (Or.inr rfl) (Or.inr (Int.le_refl _))
+  exact ⟨a.1, a.2.1⟩
 
 end ZstdVerif.Props.C07
